@@ -32,18 +32,23 @@ from sweetpea._internal import primitive as _prim
 for _c in (_prim.Level, _prim.SimpleLevel, _prim.DerivedLevel, _prim.ElseLevel, _prim.Factor, _prim.SimpleFactor,
            _prim.DerivedFactor, _prim.ContinuousFactor):
     _c.__hash__ = lambda self: id(self) >> 4
+# Var.__hash__ calls hash(int), which CrossHair also intercepts; for machine-size ints hash(n) == n (and -2 for -1).
+from sweetpea._internal.core.cnf import Var as _Var
+_Var.__hash__ = lambda self: (self._val if self._val != -1 else -2)
 '''
 
 MAIN = '''
 if __name__ == '__main__':
     _fn = sys.argv[1]
-    _kw = eval('dict(' + sys.argv[2] + ')')
+    def _bind(*a, **k):
+        return a, k
+    _a, _kw = eval('_bind(' + sys.argv[2] + ')')
     try:
-        _r = globals()['_impl_' + _fn](**_kw)
+        _r = globals()['_impl_' + _fn](*_a, **_kw)
     except Exception as _e:
         print('REPLAY-EXCEPTION', type(_e).__name__, _e)
         sys.exit(6)
-    _ok = bool(globals()['_post_' + _fn](_r, **_kw))
+    _ok = bool(globals()['_post_' + _fn](_r, *_a, **_kw))
     print('REPLAY-POST', _ok, repr(_r)[:300])
     sys.exit(0 if _ok else 5)
 '''
